@@ -103,14 +103,16 @@ def main(argv):
     for b0 in range(0, len(specs), block):
         part = core.run_specs(mod, specs[b0:b0 + block], wall=mod.WALL.get(tier, 120))
         results.extend(part)
-        for k, r in enumerate(part):
-            if "harness_error" in r:
-                _harness_error(f"property={prop} task={b0 + k} seed={specs[b0 + k].get('seed')}: "
-                               f"{r['harness_error'][-2000:]}")
         bad = [b0 + k for k, r in enumerate(part) if r.get("viol")]
         if bad:
             first_bad = bad[0]
             break
+        # harness errors count only if no run of the block found a violation (a mutated
+        # library can also break the harness; the replayable violation is the better report)
+        for k, r in enumerate(part):
+            if "harness_error" in r:
+                _harness_error(f"property={prop} task={b0 + k} seed={specs[b0 + k].get('seed')}: "
+                               f"{r['harness_error'][-2000:]}")
 
     wall_run = time.time() - t0
     known_list = core.load_known(prop)
@@ -140,6 +142,8 @@ def main(argv):
     known_hits = {}
     nontrivial_runs = 0
     for r in results:
+        if "harness_error" in r:
+            continue
         core.merge_counts(faults, r.get("faults", {}))
         core.merge_counts(probes, r.get("probes", {}))
         ops_total += r.get("n_ops", 0)
